@@ -17,7 +17,7 @@ EXPECT = {
     "F1_range_overflow": ["C03"], "F1b_range_overflow_plus1": ["C03", "C13"], "F2_zero_suffix": ["C03"], "F3_suffix_clamp": ["C03"],
     "F4_subsecond": ["C04", "C14"], "F5_ifmatch_ius": ["C04"], "F6_multipart_fuse": ["C20", "C12"],
     "F7_reader_drop": ["C11"], "F8_plus_sign": ["C03"], "F9_file_stream_not_fused": ["C20", "C13"],
-    "F10_gzip_flush_lost_sync": ["C09"], "F11_etag_pre_epoch": ["C18"], "F12_serve_pre_epoch": ["C13"], "F13_coding_case": ["C16", "C17"], "F14_ows_before_comma": ["C04"],
+    "F10_gzip_flush_lost_sync": ["C09"], "F11_etag_pre_epoch": ["C18"], "F12_serve_pre_epoch": ["C13"], "F13_coding_case": ["C16", "C17"], "F14_ows_before_comma": ["C04"], "F15_gz_probe_name_too_long": ["C19"],
     "M_cl_plus1": ["C01"], "M_ifmatch_weak": ["C04"], "M_ifrange_weak": ["C05"],
     "M_multipart_trailer_len": ["C06", "C01"], "M_short_ok": ["C07"], "M_head_fetches": ["C15"],
     "M_304_entity_headers": ["C14"], "M_gzip_gt": ["C16"], "M_star_identity": ["C16"],
